@@ -432,6 +432,13 @@ impl Prop for C01 {
 		let all = !matches!(case.src, Src::Sweep | Src::Short);
 		let n = routes::run(case.ty, case.input.bytes(), exp, all)?;
 		cx.obs(n);
+		if all {
+			// the same verdict for the same bytes at an odd offset of a larger buffer, and in a buffer re-used
+			// from the previous input of this length (the verdict may depend on nothing but the bytes)
+			let m = gen::with_misaligned_bytes(case.input.bytes(), |b, k| routes::run(case.ty, b, exp, false).map_err(|f| Failure::new(format!("misaligned:{}", f.sig), format!("(input at byte offset {k} of a larger buffer) {}", f.msg))))?;
+			let a = gen::with_arena_bytes(case.input.bytes(), |b| routes::run(case.ty, b, exp, false).map_err(|f| Failure::new(format!("reused-buffer:{}", f.sig), format!("(input in a buffer re-used from the previous input of the same length) {}", f.msg))))?;
+			cx.obs(m + a);
+		}
 		if n == 0 {
 			cx.class("no-route (non-UTF-8 input for an IRI component type)");
 			return Ok(());
@@ -537,7 +544,57 @@ impl Prop for C01 {
 				return vec![];
 			}
 		}
+		// (d) every single-byte insertion and substitution at every position of every host exemplar (all IP-literal
+		// shapes with last groups of 1-4 digits, IPv4 tails, IPvFuture, dotted decimals, escapes), in the eight
+		// host-bearing types: one wrong transition deep inside the automaton is one of these strings
+		{
+			let mut hosts: Vec<String> = gen::IPV6_POOL.iter().map(|s| s.to_string()).collect();
+			for l in 1..=4usize {
+				let g = &"abcd"[..l];
+				hosts.push(format!("[1:2:3:4:5:6:7:{g}]"));
+				hosts.push(format!("[::1:2:3:4:5:6:{g}]"));
+				hosts.push(format!("[{g}::]"));
+				hosts.push(format!("[1:2:3:4:5:6::{g}]"));
+				hosts.push(format!("[::{g}:1.2.3.4]"));
+				hosts.push(format!("[v{g}.x:y]"));
+			}
+			for h in ["255.249.199.9", "1.2.3.4", "a.b-c_d~e", "%41%C3%A9", "[::ffff:255.249.199.99]", "[1:2:3:4:5:6:255.255.255.255]", "[vFF.a]", "example.org"] {
+				hosts.push(h.to_string());
+			}
+			let wraps: [(Ty, &str, &str); 8] = [
+				(Ty::UHost, "", ""), (Ty::IHost, "", ""), (Ty::UAuthority, "u:p@", ":80"), (Ty::IAuthority, "u:p@", ":80"),
+				(Ty::Uri, "s://u@", ":80/p?q#f"), (Ty::Iri, "s://u@", ":80/p?q#f"), (Ty::UriRef, "//", "/p"), (Ty::IriRef, "//", "/p"),
+			];
+			let mut idx = 0usize;
+			for h in &hosts {
+				for (ty, pre, suf) in wraps {
+					for pos in 0..=h.len() {
+						idx += 1;
+						if idx % nshards != shard {
+							continue;
+						}
+						for b in 0..=255u8 {
+							for subst in [false, true] {
+								if subst && pos == h.len() {
+									continue;
+								}
+								let hb = h.as_bytes();
+								let mut v = pre.as_bytes().to_vec();
+								v.extend_from_slice(&hb[..pos]);
+								v.push(b);
+								v.extend_from_slice(&hb[pos + subst as usize..]);
+								v.extend_from_slice(suf.as_bytes());
+								if !f(Case { ty, input: Input::from_bytes(v), src: Src::Sweep }, false) {
+									return vec![];
+								}
+							}
+						}
+					}
+				}
+			}
+		}
 		vec![
+			"every single-byte insertion and substitution at every position of ~55 host exemplars in the 8 host-bearing types",
 			"every byte / Unicode scalar value in every context of every type",
 			"all byte pairs for the URI-family types",
 			"all strings of <= L items over the focused alphabet, every type",
